@@ -456,6 +456,11 @@ def run_wsum_grid(sc):
 
 
 def generate(tape, tier="quick"):
+    if tape.chance(1, 40):
+        # metadata objects shared between slots (also of a user-written pull-based component with a static input) and
+        # reused for a second composition (sim/shared.py, family SH)
+        from ..shared import gen_shared
+        return gen_shared(tape)
     fam = tape.weighted([("P", 5), ("S", 3), ("W", 3), ("L", 1), ("G", 1)])
     if fam == "G":
         return gen_wsum_grid(tape)
@@ -522,8 +527,16 @@ def provider_oracles(sc, r, viol):
                                  "msg": f"{pname} was asked for {tk} but pulled its input {x[3]} for {x[2]}"})
     return n
 
+RULE = RULE + (" Family SH (sim/shared.py): real CallbackGenerators on grids and units of their own feed one real DebugConsumer, the first optionally through a user-written pull-based component with a static scalar input; all inputs are declared with ONE request Info and the composition is built once or twice from the very same Info objects; oracles owned here: sh-run-raises, sh-value (incl. the pull-based component being asked for exactly the consumer's request times).")
+REAL = list(REAL) + ["CallbackGenerator, StaticCallbackGenerator, DebugConsumer from shared Info objects (family SH)"]
+
 
 def execute(sc):
+    if sc.get("engine") == "SH":
+        from ..shared import run_shared
+        r = run_shared(sc)
+        r["violations"] = [x for x in r["violations"] if x["oracle"] in ("sh-run-raises", "sh-value")]
+        return r
     if sc["engine"] == "G":
         return run_wsum_grid(sc)
     if sc["engine"] == "L":
@@ -565,6 +578,6 @@ def execute(sc):
 
 
 def known_sig(sc, v):
-    if sc.get("engine") in ("S", "L", "G"):
+    if sc.get("engine") in ("S", "L", "G", "SH"):
         return None
     return e1_known_sig(sc, v)
